@@ -298,9 +298,22 @@ func (p c01) one(c *fw.Ctx, stmts []*gt.Node, src string) {
 // with the same integer part as an integer and a positive or negative fraction), strings, booleans, nil.
 var c01Scalars = []gt.Val{int64(0), int64(1), int64(-1), int64(2), int64(-2), int64(3), int64(-3), int64(63), int64(64), int64(9007199254740993), int64(math.MaxInt64), int64(math.MinInt64),
 	0.0, math.Copysign(0, -1), 0.5, -0.5, 1.0, 1.5, -1.5, 2.5, -2.5, -3.25, 3.0, 9007199254740992.0, 9223372036854775808.0, math.Inf(1), math.Inf(-1), math.NaN(),
-	"", "a", "ab", "é", true, false, gt.Nil{}}
+	"", "a", "ab", "é", true, false, gt.Nil{},
+	&gt.Arr{}, &gt.Arr{E: []gt.Val{int64(1)}}, &gt.Arr{E: []gt.Val{1.5, "a"}}}
 
 var c01TableOps = []string{"+", "-", "*", "/", "%", "==", "!=", "<", "<=", ">", ">=", "&&", "||", "&", "|", "^", "<<", ">>"}
+
+// c01Node makes the literal node of a table operand.
+func c01Node(v gt.Val) *gt.Node {
+	if a, ok := v.(*gt.Arr); ok {
+		els := make([]*gt.Node, len(a.E))
+		for i, e := range a.E {
+			els[i] = c01Node(e)
+		}
+		return gt.MkArr(els...)
+	}
+	return gt.Lit(v)
+}
 
 func (p c01) RunBatch(c *fw.Ctx) {
 	InitGrol(nil)
@@ -320,10 +333,10 @@ func (p c01) RunBatch(c *fw.Ctx) {
 			}
 			var stmts []*gt.Node
 			for _, op := range c01TableOps {
-				stmts = append(stmts, show(gt.In(op, gt.Lit(a), gt.Lit(b))))
+				stmts = append(stmts, show(gt.In(op, c01Node(a), c01Node(b))))
 			}
-			stmts = append(stmts, show(gt.Idx(&gt.Node{K: gt.KMap, Kids: []*gt.Node{gt.Lit(a), gt.Lit(int64(1))}}, gt.Lit(b))),
-				show(gt.Pre("-", gt.Lit(a))), show(gt.Pre("!", gt.Lit(a))))
+			stmts = append(stmts, show(gt.Idx(&gt.Node{K: gt.KMap, Kids: []*gt.Node{c01Node(a), gt.Lit(int64(1))}}, c01Node(b))),
+				show(gt.Pre("-", c01Node(a))), show(gt.Pre("!", c01Node(a))))
 			src := gt.Render(stmts)
 			c.Begin(c01Case{Src: src})
 			p.one(c, stmts, src)
